@@ -230,6 +230,9 @@ theorem Lines.suspend {w a : World} (h : Lines w a) (pc : Pc) : Lines w (a.suspe
 
 theorem Lines.handleDisconnect {w a : World} (h : Lines w a) : Lines w a.handleDisconnect := h.of_eq rfl
 
+theorem Lines.discFail {w a : World} (h : Lines w a) (ctx : StepCtx) : Lines w (a.discFail ctx) :=
+  h.of_eq (discFail_out a ctx)
+
 theorem Lines.finishOp {w a : World} (h : Lines w a) (name : String) (op : Op) : Lines w (a.finishOp name op) :=
   Lines.finish (a := { a with handles := a.handles ++ [op] }) (h.of_eq rfl) _
 
